@@ -73,3 +73,26 @@ prop('C14',
                  "chunked copies and file open flags; exploration - no counterexample among generated cases."),
      technique="model-based property testing (rapidcheck + libFuzzer tape histories), exhaustive configuration matrices, ASan/UBSan with canary zones",
      design_ref="DESIGN.md section 3, C14")
+
+prop('C19',
+     quick=dict(sweep=True, pbt=(60000, 300, 6), fuzz=(200000, 300, 4)),
+     thorough=dict(sweep=True, pbt=(2000000, 400, 10), fuzz=(6000000, 400, 5), stage_timeout=3600),
+     floor=dict(quick=1000000, thorough=4000000000), alloc_cap_mb=64,
+     rule=("Sweep (exhaustive): all 820 strings of length <=3 over {a,A,b,Z,z,0,_,.,/} - every unordered pair for asymmetry, IsEqual == ASCII case-fold "
+           "equality == incomparability, PathsAreEqual symmetry and containment of IsEqual; every triple of the 91 strings of length <=2 for transitivity of "
+           "the order, of incomparability and of PathsAreEqual; per string irreflexivity/reflexivity, p ~ ./p for every relative p (plain and directory-"
+           "qualified counted separately), split+re-join for every p with a file-name component; join law over 91x820 (dir, name) pairs; extension law over "
+           "820 names x 7 extensions x 8 case masks x dot/no-dot; IsPowerOf2 against popcount for all values with <=3 bits set, their +-1 neighbours and "
+           "complements plus 2^24 pseudo-random values (thorough: all 2^32 values), Log2OfPowerOf2 for all 32 powers. pbt/fuzz: random strings <=40 bytes "
+           "incl. bytes >=0x80, punctuation between the letter cases, case variants, prefixes, path-shaped strings, name lists (sort yields a sorted "
+           "permutation with equal-ignoring-case names adjacent; adjacent-duplicate scan complete). Non-trivial = pair differing only in case or one a proper "
+           "prefix of the other, sort lists with a duplicate, directory-qualified paths, extension cases; distinct by content hash."),
+     sweep_what="all pairs of 820 short strings, all triples of 91, join/extension/dot-slash/re-join laws over the same strings, bit helpers (quick: sparse+2^24 random; thorough: all 2^32)",
+     sweep_is_whole_domain=False,
+     assumptions=["C locale (tolower/toupper act on ASCII only)", "paths starting with '//' (implementation-defined root name) and paths ending in '/' are outside the split/re-join law's domain",
+                  "extension law: names with at least one non-dot character, alphanumeric extensions"],
+     title="Ordering, path-equality and bit helpers obey the laws their callers assume",
+     level_text=("Bounded-exhaustive enumeration of short strings and (thorough) all 2^32 words, plus random longer strings, against algebraic laws and reference "
+                 "predicates; exhaustive only for the enumerated sub-domains."),
+     technique="bounded-exhaustive law checking + property-based testing of algebraic laws (rapidcheck, libFuzzer) against reference predicates",
+     design_ref="DESIGN.md section 3, C19")
